@@ -221,6 +221,9 @@ pub fn run_case(case: &Case) -> Outcome {
         if m == "drop-closer" {
             out.probe("reach:unterminated-construct", 1);
         }
+        if m == "json-structure" {
+            out.probe("fault:json-member-of-wrong-type-or-missing", 1);
+        }
     }
     out.nontrivial = fired > 0 || stats.short_ops.get() > 0 || case.extra.contains_key("mutation");
     out.fingerprint = mix(&[fnv1a(rendered.as_bytes()), stats.calls.get(), stats.delivered.get() as u64, ticks]);
@@ -312,6 +315,17 @@ pub fn enumerate_single_faults(prop: &str, base: &[u8], kind: &str, grid: bool, 
         }
     }
     if kind == "json" {
+        // every single structural fault: a member of the wrong JSON type, a missing member
+        for (what, doc) in mutate::json_struct_variants(base) {
+            for sink in ["json-slice", "json-reader"] {
+                let mut c = mk(sink, &doc, what.clone());
+                c.extra.insert("mutation".into(), "json-structure".into());
+                if sink == "json-reader" {
+                    c.read.chunk = Chunk::Fixed(7);
+                }
+                cases.push(c);
+            }
+        }
         for ty in TYPED {
             cases.push(mk(&format!("json-typed:{ty}"), base, "typed".into()));
             for off in (0..n).step_by(7) {
